@@ -122,12 +122,18 @@ func workerBatch(t *testing.T) {
 	sigs := map[uint64]struct{}{}
 	start := time.Now()
 	run := func(in core.Input) *core.Result { return core.Execute(t, in, w.Run) }
+	mark := os.Getenv("VERIF_SEED_MARK")
 	seed := lo
 	for ; seed < hi; seed++ {
 		if time.Now().After(deadline) {
 			break
 		}
 		in := core.Input{World: wname, Prop: prop, Tier: tier, Seed: seed, Flags: flags}
+		if mark != "" {
+			// debugging aid for fatal (unrecoverable) crashes of the code under test: the seed that
+			// was running is the last one written
+			_ = os.WriteFile(mark, []byte(strconv.FormatUint(seed, 10)), 0o644)
+		}
 		res := run(in)
 		out.Runs++
 		out.Steps += int64(res.Steps)
